@@ -377,12 +377,15 @@ def plumbing(ctx):
         if not okf:
             probs.append("Key::from_str is not `parse the whole input as KeyText, then convert its Ok value`: " + fmt_n(v)[:200])
     ctx.add("R08.6", "C08/plumbing/Key-from_str", not probs, "; ".join(probs), site_of(f) if f else None)
-    f, rr, probs = single("paserk::plaintext::<impl core::convert::TryFrom<paserk::plaintext::KeyText<V, K>> for key::Key<V, K>>::try_from", inline=False)
+    f, rr, probs = single("paserk::plaintext::<impl core::convert::TryFrom<paserk::plaintext::KeyText<V, K>> for key::Key<V, K>>::try_from", inline=True)
     if rr:
         r, rets = rr
-        evs = [e for x in r.results for e in x.path.events if e["kind"] == "call" and e["name"].endswith("HasKey<K>>::decode")]
-        if len(evs) != 1 or r.norm.n(evs[0]["vals"][0]) != ("fld", ("in", "value"), 0):
-            probs.append("TryFrom<KeyText> does not decode exactly the stored bytes")
+        if not r.results:
+            probs.append("no path")
+        for x in r.results:
+            evs = [e for e in x.path.events if e["kind"] == "call" and e["name"].endswith("HasKey<K>>::decode")]
+            if len(evs) != 1 or r.norm.n(evs[0]["vals"][0]) != ("fld", ("in", "value"), 0):
+                probs.append("TryFrom<KeyText> does not decode exactly the stored bytes")
     ctx.add("R08.6", "C08/plumbing/KeyText-try_into", not probs, "; ".join(probs), site_of(f) if f else None)
     f, rr, probs = single("<key::Key<V, version::Public> as core::fmt::Display>::fmt", inline=False)
     if rr:
